@@ -44,7 +44,7 @@ RULE = ("Hypothesis-generated (LUT, set-up, viscosity route, query batch, "
         "support (finite expected value compared against the independent "
         "interpolation) or within 1e-3 (normalised) of the hull boundary; "
         "distinct = sha1 of the canonical JSON spec")
-BUDGET = {"quick": 800, "thorough": 12000}
+BUDGET = {"quick": 1200, "thorough": 18000}
 #: a badly broken tree fails in almost every case: bound the re-run rounds
 MAX_ROUNDS = 3
 #: the quick tier needs ~5 min CPU in total; generous wall limit for a shared box
